@@ -28,7 +28,7 @@ fn dilute(j: u64, spacing: u32, n_bits: u32) -> Felt {
 
 fn check_diluted(n_bits: u32, spacing: u32, seed: u64) -> Outcome {
     let f = fp(&(n_bits, spacing, seed));
-    let class = format!("diluted/{}", if (n_bits, spacing) == (16, 4) { "layout_16_4".to_string() } else if n_bits == 1 { "n1".to_string() } else { "generic".to_string() });
+    let class = format!("diluted/{}", if (n_bits, spacing) == (16, 4) { "layout_16_4".to_string() } else if n_bits <= 1 { format!("n{}", n_bits) } else { "generic".to_string() });
     let z = prf_felt(seed, 1);
     let alpha = prf_felt(seed, 2);
     // r_1 = 1, r_{j+1} = r_j*(1+z*u_j) + alpha*u_j^2, u_j = Dilute(j) - Dilute(j-1), j = 1..2^n_bits-1
@@ -40,7 +40,29 @@ fn check_diluted(n_bits: u32, spacing: u32, seed: u64) -> Outcome {
         r = r * (Felt::ONE + z * u) + alpha * u * u;
         prev = cur;
     }
-    match guarded(false, || get_diluted_product(Felt::from(n_bits as u64), Felt::from(spacing as u64), z, alpha)) {
+    // the honest call takes microseconds; it runs on its own thread and a call that has not returned after
+    // 10 s of wall-clock time has not produced the defined value (the thread is left behind)
+    // an argument pair that has already failed to return in this process is not waited for again
+    static NO_RESULT: std::sync::Mutex<Vec<(u32, u32)>> = std::sync::Mutex::new(Vec::new());
+    let no_result = |class: String| {
+        Outcome::failed(class, f, "c15:diluted_product_no_result", format!("get_diluted_product(n_bits={}, spacing={}) did not return within 10 s (the recurrence has {} steps)", n_bits, spacing, (1u64 << n_bits) - 1))
+    };
+    if NO_RESULT.lock().unwrap().iter().any(|(n, s)| *n == n_bits && (*s == spacing || n_bits == 0)) {
+        return no_result(class);
+    }
+    let (tx, rx) = std::sync::mpsc::channel();
+    std::thread::spawn(move || {
+        let r = guarded(false, || get_diluted_product(Felt::from(n_bits as u64), Felt::from(spacing as u64), z, alpha));
+        let _ = tx.send(r);
+    });
+    let got = match rx.recv_timeout(std::time::Duration::from_secs(10)) {
+        Ok(g) => g,
+        Err(_) => {
+            NO_RESULT.lock().unwrap().push((n_bits, spacing));
+            return no_result(class);
+        }
+    };
+    match got {
         Err(p) => Outcome::failed(class, f, p.signature(), p.describe()),
         Ok(v) => {
             if v == r {
@@ -156,12 +178,12 @@ pub fn run(ctx: &Ctx) -> Report {
         ctx,
         "c15d",
         ctx.n(600, 6000),
-        || (1u32..=max_bits, 1u32..=15, any::<u64>()).prop_map(|(n_bits, spacing, seed)| Case::Diluted { n_bits, spacing, seed }),
+        || (0u32..=max_bits, 0u32..=15, any::<u64>()).prop_map(|(n_bits, spacing, seed)| Case::Diluted { n_bits, spacing, seed }),
         check,
         &mut rep,
     );
     // every layout's (16, 4), and the thorough extremes
-    let mut fixed = vec![(16u32, 4u32), (16, 4), (16, 1), (16, 15), (1, 4), (2, 4)];
+    let mut fixed = vec![(16u32, 4u32), (16, 4), (16, 1), (16, 15), (1, 4), (2, 4), (0, 4), (0, 1), (1, 0), (3, 0)];
     if !ctx.quick() {
         fixed.extend([(17, 4), (18, 4), (18, 13)]);
     }
@@ -197,4 +219,4 @@ pub fn replay(_ctx: &Ctx, v: &Value) -> Result<Outcome, String> {
     Ok(check(&c))
 }
 
-pub const RULE: &str = "get_diluted_product: proptest-generated (n_bits 1..=12 quick / 16 thorough, spacing 1..=15, PRF z and alpha) plus fixed (16,4) of every layout, (16,1), (16,15), (1,4), (2,4) [thorough: 17/18 bits], each compared with the naive recurrence over all 2^n_bits diluted values; n_bits = 0 is outside the callers' precondition and not generated. Public memory: 0..60 main-page cells, 0..3 continuous-page headers with PRF products, column size = total + padding up to 2^40, PRF padding cell, PRF z/alpha, compared with z^size / (prod cells * prod header.prod * pad^(size-total)). Non-trivial = n_bits >= 2 / memory with padding > 0 or headers; distinct by case hash";
+pub const RULE: &str = "get_diluted_product: proptest-generated (n_bits 0..=12 quick / 16 thorough, spacing 0..=15, PRF z and alpha) plus fixed (16,4) of every layout, (16,1), (16,15), (1,4), (2,4), (0,4), (0,1), (1,0), (3,0) [thorough: 17/18 bits], each compared with the naive recurrence over all 2^n_bits diluted values (n_bits = 0: the single value r_1 = 1); the call runs on its own thread and a call that has not returned after 10 s counts as 'no such value'. Public memory: 0..60 main-page cells, 0..3 continuous-page headers with PRF products, column size = total + padding up to 2^40, PRF padding cell, PRF z/alpha, compared with z^size / (prod cells * prod header.prod * pad^(size-total)). Non-trivial = n_bits >= 2 / memory with padding > 0 or headers; distinct by case hash";
